@@ -292,13 +292,18 @@ impl<'a> Page<'a> {
             return Err(Error::WalProtocol("index page: not internal"));
         }
         let n = self.cell_count();
-        // upper_bound: first key > target
+        // lower_bound: first separator >= target.  A separator equals the first key of its right
+        // child at split time, and entries equal to it may also sit at the end of the left
+        // child, so on equality we must descend LEFT: that reaches the leftmost leaf that can
+        // hold `target` (searches walk right through the sibling chain from there).  Descending
+        // right on equality skipped equal entries in the left leaf: lookups returned an older
+        // duplicate and deletes of a stored pair failed.
         let mut lo = 0usize;
         let mut hi = n;
         while lo < hi {
             let mid = (lo + hi) / 2;
             let (k, _) = self.internal_cell_key_and_right_child(mid)?;
-            if k <= target {
+            if k < target {
                 lo = mid + 1;
             } else {
                 hi = mid;
@@ -488,9 +493,9 @@ impl BTree {
                                 })
                                 .collect();
                             // Insert new entry into the sorted list.
-                            let pos = entries
-                                .binary_search_by(|(k, _)| k.as_slice().cmp(key))
-                                .unwrap_or_else(|p| p);
+                            // Lower bound, as in the non-splitting path: the new entry goes in
+                            // front of existing entries with an equal key (newest first).
+                            let pos = entries.partition_point(|(k, _)| k.as_slice() < key);
                             entries.insert(pos, (key.to_vec(), payload));
 
                             let mid = entries.len() / 2;
@@ -536,23 +541,33 @@ impl BTree {
             let kind = Page::new(&mut buf).kind()?;
             match kind {
                 PageKind::Leaf => {
-                    let mut page = Page::new(&mut buf);
-                    // Use binary search to find exact match
-                    if let Ok(idx) =
-                        (0..page.cell_count())
-                            .collect::<Vec<_>>()
-                            .binary_search_by(|&i| {
-                                let (k, v) = page.leaf_cell_key_and_payload(i).unwrap();
-                                (k, v).cmp(&(key, payload))
-                            })
-                    {
-                        // Found it, delete in place
-                        page.delete_from_leaf(idx)?;
-                        pager.write_page(cur, &buf)?;
-                        return Ok(true);
-                    } else {
-                        // Not found in this leaf
-                        return Ok(false);
+                    // Entries with equal keys are not ordered by payload and may continue in
+                    // the right siblings: scan the run of `key` for the exact pair.
+                    let mut leaf_id = cur;
+                    let mut leaf_buf = buf;
+                    let mut idx = Page::new(&mut leaf_buf).leaf_lower_bound(key)?;
+                    loop {
+                        let mut page = Page::new(&mut leaf_buf);
+                        if idx >= page.cell_count() {
+                            let next = page.right_sibling();
+                            if next.as_u64() == 0 {
+                                return Ok(false);
+                            }
+                            leaf_id = next;
+                            leaf_buf = pager.read_page(leaf_id)?;
+                            idx = 0;
+                            continue;
+                        }
+                        let (k, v) = page.leaf_cell_key_and_payload(idx)?;
+                        if k != key {
+                            return Ok(false);
+                        }
+                        if v == payload {
+                            page.delete_from_leaf(idx)?;
+                            pager.write_page(leaf_id, &leaf_buf)?;
+                            return Ok(true);
+                        }
+                        idx += 1;
                     }
                 }
                 PageKind::Internal => {
